@@ -1,4 +1,5 @@
 import NauyacaVerif.Srv.ConnMore
+import NauyacaVerif.Srv.PumpProof
 import NauyacaVerif.Gen.Params
 
 /-! # C15  Silent peers are always disconnected within the timeout
@@ -45,4 +46,20 @@ example : (run { mw := false, upload := false, handler := .async, env := asciiEn
             [.data [103, 101], .tick 239]).out = [] := by decide
 example : (run { mw := false, upload := false, handler := .async, env := asciiEnv }
             [.data [103, 101], .tick 239, .tick 1]).out ≠ [] := by decide
+
+/-- PyOpenSSL backend: until the handshake completes (and while the TCP connection is up) the handshake timer is armed -/
+theorem pump_armed (cfg : Cfg) (evs : List PEv) (h1 : (pumpRun cfg evs).hsDone = false) (h2 : (pumpRun cfg evs).lost = false)
+    (h3 : (pumpRun cfg evs).tcpClosed = false) : (pumpRun cfg evs).hsTimer = true :=
+  (pumpRun_pinv cfg evs).armed h1 h2 h3
+
+/-- … and when it fires the connection is closed -/
+theorem pump_handshake_timeout_closes (cfg : Cfg) (p : PSt) (h1 : p.hsTimer = true) (h2 : p.hsDone = false) (h3 : p.lost = false) :
+    (pumpStep cfg p .hsTimeout).tcpClosed = true := by
+  simp [pumpStep, h1, h2, h3]
+
+/-- after the handshake the inner protocol's own request timer takes over, with all of the above -/
+theorem pump_inner_timer (cfg : Cfg) (evs : List PEv) (i : St) (hi : (pumpRun cfg evs).inner = some i) :
+    (i.timer = true ↔ (waiting i.phase ∧ i.lost = false ∧ i.sent = false)) ∧ (i.timer = true → i.now < requestTimeout8) :=
+  ⟨((pumpRun_pinv cfg evs).innerInv i hi).1.timerIff, ((pumpRun_pinv cfg evs).innerInv i hi).2.1⟩
+
 end NauyacaVerif.C15
